@@ -23,7 +23,8 @@ RULE = ('roles base + k*"-of", k in 0..4, with and without the leading colon; ba
         'default, AMR, no-op, mini-AMR, 40 random tables (literal roles, regex roles incl. patterns that '
         'end in -of such as :(u|w)-of, normalisations), 10 tables with normalisation chains '
         '(single-lookup clause only); tree clause on WF-T trees whose roles are additionally '
-        'over-inverted and stripped of their colon. Exhaustive over that finite role x model grid. '
+        'over-inverted and stripped of their colon, with duplicated branches in a third of them and roles that '
+        'are plain-alias normalisation keys; triple laws with variable, numeric, string and missing targets. Exhaustive over that finite role x model grid. '
         'Non-trivial: k>=1 or the base is model-defined.')
 ANCHORS = ['penman.model:Model.canonicalize_role', 'penman.model:Model._canonicalize_inversion',
            'penman.model:Model.invert_role', 'penman.model:Model.is_role_inverted',
